@@ -209,3 +209,41 @@ Proof.
   intros W P. rewrite PC.cat_write_lines. fold (cat_file_lines i). apply entrypoints_text_proof; [exact P|].
   apply lines_ok_intro; [now apply cat_file_lines_no_break|apply cat_file_lines_ne].
 Qed.
+
+(* with the round-trip theorem of C08 (wf_cat: Proofs/CatIO.v) *)
+Lemma wf_cat_text_ok i : PC.wf_cat i -> cat_text_ok i.
+Proof.
+  intros W. split; [apply (PC.wf_meta i W)|]. split; [apply (PC.wf_alts i W)|]. split; [apply (PC.wf_cats i W)|].
+  now apply PC.wf_ballots_nonempty.
+Qed.
+
+Lemma cat_canonical i : PC.wf_cat i ->
+  parse_file_model CCat (lit "cat") (mkFlags false false) (cat_write i) = Ok (ICat (CatIO.sorted_view i)).
+Proof.
+  intros W. unfold parse_file_model, parse_lines. cbn [type_validator]. rewrite teqb_refl. unfold class_parse.
+  cbn [autocorrect header_only]. now rewrite (PC.roundtrip_readlines i W).
+Qed.
+
+Theorem entrypoints_cat e pads i : PC.wf_cat i -> wf_pad pads = true ->
+  parse_entry e CCat (lit "cat") (mkFlags false false) (restyle pads (cat_write i)) = Ok (ICat (CatIO.sorted_view i)).
+Proof.
+  intros W P. rewrite entrypoints_cat_flags by (try assumption; now apply wf_cat_text_ok). now apply cat_canonical.
+Qed.
+
+Theorem entrypoints_cat_get pads i : PC.wf_cat i -> wf_pad pads = true ->
+  get_parsed_instance_model (lit "cat") (mkFlags false false) (restyle pads (cat_write i)) = Ok (ICat (CatIO.sorted_view i)).
+Proof.
+  intros W P. rewrite (get_is_parse_file (lit "cat") CCat) by reflexivity.
+  exact (entrypoints_cat EFile pads i W P).
+Qed.
+
+Lemma header_agrees_cat h o : header_agrees h (ICat o) -> h = header_of (ICat o).
+Proof. destruct h; exact (fun H => H). Qed.
+
+Theorem header_only_cat e pads i : PC.wf_cat i -> wf_pad pads = true ->
+  parse_entry e CCat (lit "cat") (mkFlags false true) (restyle pads (cat_write i)) = Ok (header_of (ICat (CatIO.sorted_view i))).
+Proof.
+  intros W P. rewrite entrypoints_cat_flags by (try assumption; now apply wf_cat_text_ok).
+  pose proof (cat_canonical i W) as F. unfold parse_file_model in *.
+  destruct (header_only_proof _ _ _ _ _ F) as [h [E [_ [_ B]]]]. rewrite E. f_equal. apply header_agrees_cat. now apply B.
+Qed.
